@@ -66,7 +66,10 @@ func isRWCtor(c *Ctx, f *ssa.Function) bool {
 }
 
 // ruleRO: read APIs are effect free.
-func ruleRO(c *Ctx) {
+func ruleRO(c *Ctx)   { roRule(c, true) }
+func ruleROIO(c *Ctx) { roRule(c, false) }
+
+func roRule(c *Ctx, withMem bool) {
 	fx := getEffects(c)
 	gate, _, _ := findPutGate(c)
 	n := 0
@@ -80,7 +83,11 @@ func ruleRO(c *Ctx) {
 		n++
 		c.touch(m)
 		sw := fx.sharedWrites(m)
-		if len(sw) == 0 {
+		if !withMem {
+			sw = nil
+		}
+		if !withMem {
+		} else if len(sw) == 0 {
 			c.ok(fnName(m), "no write to shared state", c.P.pos(m.Pos()), "the cone of this read API writes only fresh objects")
 		} else {
 			for fn, evs := range groupByFn(sw) {
